@@ -281,7 +281,71 @@ def validate_split(w):
     return parts == w["parts"], f"real parts={parts}"
 
 
-HANDLERS = {"prop": replay_prop, "heur": replay_heur, "split": replay_split}
+REDUCER_SCRIPT = r"""
+import os, sys
+sys.path.insert(0, %(repo)r)
+from nucs.problems.problem import Problem
+from nucs.solvers.backtrack_solver import BacktrackSolver
+from nucs.solvers.multiprocessing_solver import MultiprocessingSolver
+
+class Dying(BacktrackSolver):
+    die_at = None
+    def _q(self, q):
+        outer = self
+        class Q:
+            n = 0
+            def put(s, msg):
+                if outer.die_at is not None and s.n == outer.die_at:
+                    q.close(); q.join_thread(); os._exit(1)
+                q.put(msg); s.n += 1
+        return Q()
+    def solve_and_queue(self, idx, q):
+        super().solve_and_queue(idx, self._q(q))
+    def optimize_and_queue(self, v, f, idx, q):
+        super().optimize_and_queue(v, f, idx, self._q(q))
+
+mode, dead_at, nsol = %(mode)r, %(dead_at)r, %(nsol)r
+solvers = []
+for w, k in enumerate(nsol):
+    # worker w enumerates k solutions: one variable with k values (k = 0: an inconsistent constraint)
+    from nucs.propagators.propagators import ALG_AFFINE_LEQ
+    pb = Problem([(10 * w, 10 * w + max(k, 1) - 1)])
+    if k == 0:
+        pb.add_propagator(([0], ALG_AFFINE_LEQ, [1, -1000]))
+    s = Dying(pb, log_level="CRITICAL")
+    s.die_at = dead_at[w] if dead_at[w] <= k else None
+    solvers.append(s)
+mp = MultiprocessingSolver(solvers, log_level="CRITICAL")
+try:
+    if mode == "solve":
+        print("RESULT", sorted(x.tolist() for x in mp.solve()))
+    elif mode == "minimize":
+        print("RESULT", mp.minimize(0))
+    else:
+        print("RESULT", mp.maximize(0))
+except Exception as e:
+    print("RAISED", type(e).__name__, e)
+"""
+
+
+def replay_reducer(r):
+    import subprocess
+
+    code = REDUCER_SCRIPT % dict(repo=os.environ.get("NUSYM_REPO", "/repo"), mode=r["mode"], dead_at=r["dead_at"], nsol=[max(0, n) for n in r["nsol"]])
+    import signal
+
+    proc = subprocess.Popen([sys.executable, "-c", code], stdout=subprocess.PIPE, stderr=subprocess.STDOUT, text=True, start_new_session=True)
+    try:
+        out, _ = proc.communicate(timeout=float(os.environ.get("NUSYM_WATCHDOG_S", "20")))
+    except subprocess.TimeoutExpired:
+        os.killpg(proc.pid, signal.SIGKILL)
+        proc.wait()
+        return r["kind"] == "blocks-forever", "the real MultiprocessingSolver call did not return within the watchdog"
+    out = out.strip()[-400:]
+    return False, f"the call terminated: {out}"
+
+
+HANDLERS = {"prop": replay_prop, "heur": replay_heur, "split": replay_split, "reducer": replay_reducer}
 
 
 def validate_prop(w):
